@@ -6,6 +6,7 @@ use std::sync::atomic::{AtomicUsize, Ordering};
 
 static mut CUR: [u8; 400] = [0; 400];
 static LEN: AtomicUsize = AtomicUsize::new(0);
+static BEAT: AtomicUsize = AtomicUsize::new(0);
 
 extern "C" {
     fn signal(sig: i32, handler: usize) -> usize;
@@ -24,6 +25,7 @@ pub fn set_current(s: &str) {
         std::ptr::copy_nonoverlapping(b.as_ptr(), p, n);
     }
     LEN.store(n, Ordering::SeqCst);
+    BEAT.fetch_add(1, Ordering::Relaxed);
 }
 
 extern "C" fn on_fatal(sig: i32) {
@@ -44,4 +46,29 @@ pub fn install() {
     for sig in [11, 4, 7, 8] {
         unsafe { signal(sig, on_fatal as usize); }
     }
+}
+
+/// Watchdog: if no operation has started for `secs` seconds the library is presumably not terminating (an endless loop,
+/// a deadlock): report the operation in progress and end the process, so that the check reports a failing input instead
+/// of hanging.  (The longest silent stretches of the harness itself — exhaustive table sweeps — take a few minutes.)
+pub fn watchdog(secs: u64) {
+    std::thread::spawn(move || {
+        let mut last = BEAT.load(Ordering::Relaxed);
+        let mut quiet = 0u64;
+        loop {
+            std::thread::sleep(std::time::Duration::from_secs(5));
+            let now = BEAT.load(Ordering::Relaxed);
+            if now != last { last = now; quiet = 0; continue; }
+            quiet += 5;
+            if quiet >= secs {
+                let head = b"\nNO PROGRESS for a long time (non-termination inside the library?) while: ";
+                unsafe {
+                    write(1, head.as_ptr(), head.len());
+                    write(1, std::ptr::addr_of!(CUR) as *const u8, LEN.load(Ordering::SeqCst));
+                    write(1, b"\n".as_ptr(), 1);
+                    _exit(124);
+                }
+            }
+        }
+    });
 }
